@@ -42,6 +42,13 @@ def diagnose(program, debug=True, calls=1):
     named = None
     if "Unsatisfied constraints" in text:
         named = [m.group(2) for m in NAME_RE.finditer(text.split("Unsatisfied constraints", 1)[1])]
+    elif not sol and not err and "no solution exists" in text:
+        # tolerant reading, should the wording of the report change: the constraints of the problem whose printed
+        # form (name='...') appears in what the failing solve() wrote
+        found = [m.group(1) for m in re.finditer(r"name='((?:[^'\\]|\\.)*)'", text)]
+        found = [n for n in found if n in built.pb.constraints]
+        if found:
+            named = found
     return sol, err, text, named, built
 
 
